@@ -199,6 +199,7 @@ def oracle_c10(lines: list[str], answers: list[str]) -> list[tuple[str, str]]:
     last_run = None
     runs_seen: list[str] = []
     pending_restart = False
+    begin_next = False
     for n, (ln, a) in enumerate(zip(lines, answers)):
         o = parse(a)
         if o is None:
@@ -228,8 +229,15 @@ def oracle_c10(lines: list[str], answers: list[str]) -> list[tuple[str, str]]:
                 out.append(("run-id-survives-stop", f"op {n}: run id not cleared"))
             if any(x.isdigit() for x in o["ex"] + o["qu"]):
                 out.append(("uod-request-survives-stop", f"op {n}: executing = {o['ex']} queue = {o['qu']}"))
-        if pending_restart and o["started"] and o["stop"] is None and o["sys"] == "R" and ln == "tick":
+        if begin_next and ln == "tick":
+            begin_next = False
+            # Restart's third phase, the new run begins: nothing of the old run's pause is left (else the method
+            # would never run again)
+            if o["started"] and o["paused"] and o["reply"] == "ok":
+                out.append(("restarted-run-begins-paused", f"op {n}: the run begun by Restart is paused"))
+        if pending_restart and o["stop"] is not None:
             pending_restart = False
+            begin_next = True       # the run has ended (second phase); the next tick begins the new one
     return out
 
 
